@@ -1,4 +1,6 @@
 """C15 - indicators match their definitions, ranges and orderings (H-IND, differential against textbook references)."""
+import math
+
 import numpy as np
 
 from ..engine import symex as sx
@@ -186,7 +188,14 @@ def ref_donchian(rows, p):
 TOL = 1e-6  # absolute; prices are in [50,200]: implementations fold constants like 1/period in binary64 (DESIGN 2.7 rule 4)
 
 
+def _is_inf(x):
+    return (not sx.is_sym(x)) and isinstance(x, (float, np.floating)) and x in (math.inf, -math.inf)
+
+
 def near(a, b, tol=TOL):
+    if _is_inf(a) or _is_inf(b):
+        # a division by a zero input (e.g. roc on a zero volume): both sides must be the same infinity
+        return _is_inf(a) and _is_inf(b) and a == b
     d = a - b
     if sx.is_sym(d):
         return And(d <= tol, d >= -tol)
